@@ -846,49 +846,10 @@ impl DcpsDomainParticipant {
                         vec![]
                     };
 
-                    let is_any_name_matched = discovered_reader_data
-                        .dds_subscription_data
-                        .partition
-                        .name
-                        .iter()
-                        .any(|n| publisher.qos.partition.name.contains(n));
-
-                    let is_any_received_regex_matched_with_partition_qos = discovered_reader_data
-                        .dds_subscription_data
-                        .partition
-                        .name
-                        .iter()
-                        .filter_map(|n| Regex::new(&fnmatch_to_regex(n)).ok())
-                        .any(|regex| {
-                            publisher
-                                .qos
-                                .partition
-                                .name
-                                .iter()
-                                .any(|n| regex.is_match(n))
-                        });
-
-                    let is_any_local_regex_matched_with_received_partition_qos = publisher
-                        .qos
-                        .partition
-                        .name
-                        .iter()
-                        .filter_map(|n| Regex::new(&fnmatch_to_regex(n)).ok())
-                        .any(|regex| {
-                            discovered_reader_data
-                                .dds_subscription_data
-                                .partition
-                                .name
-                                .iter()
-                                .any(|n| regex.is_match(n))
-                        });
-
-                    let is_partition_matched =
-                        discovered_reader_data.dds_subscription_data.partition
-                            == publisher.qos.partition
-                            || is_any_name_matched
-                            || is_any_received_regex_matched_with_partition_qos
-                            || is_any_local_regex_matched_with_received_partition_qos;
+                    let is_partition_matched = is_partition_matched(
+                        &discovered_reader_data.dds_subscription_data.partition,
+                        &publisher.qos.partition,
+                    );
                     if is_partition_matched {
                         let publisher_qos = publisher.qos.clone();
 
@@ -1407,47 +1368,10 @@ impl DcpsDomainParticipant {
                         vec![]
                     };
 
-                    let is_any_name_matched = discovered_writer_data
-                        .dds_publication_data
-                        .partition
-                        .name
-                        .iter()
-                        .any(|n| subscriber_qos.partition.name.contains(n));
-
-                    let is_any_received_regex_matched_with_partition_qos = discovered_writer_data
-                        .dds_publication_data
-                        .partition
-                        .name
-                        .iter()
-                        .filter_map(|n| Regex::new(&fnmatch_to_regex(n)).ok())
-                        .any(|regex| {
-                            subscriber_qos
-                                .partition
-                                .name
-                                .iter()
-                                .any(|n| regex.is_match(n))
-                        });
-
-                    let is_any_local_regex_matched_with_received_partition_qos = subscriber_qos
-                        .partition
-                        .name
-                        .iter()
-                        .filter_map(|n| Regex::new(&fnmatch_to_regex(n)).ok())
-                        .any(|regex| {
-                            discovered_writer_data
-                                .dds_publication_data
-                                .partition
-                                .name
-                                .iter()
-                                .any(|n| regex.is_match(n))
-                        });
-
-                    let is_partition_matched =
-                        discovered_writer_data.dds_publication_data.partition
-                            == subscriber_qos.partition
-                            || is_any_name_matched
-                            || is_any_received_regex_matched_with_partition_qos
-                            || is_any_local_regex_matched_with_received_partition_qos;
+                    let is_partition_matched = is_partition_matched(
+                        &discovered_writer_data.dds_publication_data.partition,
+                        &subscriber_qos.partition,
+                    );
 
                     if is_partition_matched {
                         let reader_associated_topic = if let Some(matched_topic) = self
@@ -3358,6 +3282,41 @@ fn get_discovered_writer_incompatible_qos_policy_list(
     }
 
     incompatible_qos_policy_list
+}
+
+/// Two partition policies match when one of their names matches, a name being either a literal or a
+/// POSIX fnmatch pattern. An empty list stands for the default partition, i.e. the single name "".
+fn is_partition_matched(
+    discovered: &crate::infrastructure::qos_policy::PartitionQosPolicy,
+    local: &crate::infrastructure::qos_policy::PartitionQosPolicy,
+) -> bool {
+    let default_partition = [String::new()];
+    let discovered_names: &[String] = if discovered.name.is_empty() {
+        &default_partition
+    } else {
+        &discovered.name
+    };
+    let local_names: &[String] = if local.name.is_empty() {
+        &default_partition
+    } else {
+        &local.name
+    };
+
+    let is_any_name_matched = discovered_names.iter().any(|n| local_names.contains(n));
+
+    let is_any_received_regex_matched_with_partition_qos = discovered_names
+        .iter()
+        .filter_map(|n| Regex::new(&fnmatch_to_regex(n)).ok())
+        .any(|regex| local_names.iter().any(|n| regex.is_match(n)));
+
+    let is_any_local_regex_matched_with_received_partition_qos = local_names
+        .iter()
+        .filter_map(|n| Regex::new(&fnmatch_to_regex(n)).ok())
+        .any(|regex| discovered_names.iter().any(|n| regex.is_match(n)));
+
+    is_any_name_matched
+        || is_any_received_regex_matched_with_partition_qos
+        || is_any_local_regex_matched_with_received_partition_qos
 }
 
 fn fnmatch_to_regex(pattern: &str) -> String {
